@@ -1311,13 +1311,13 @@ worker(const vx_cfg *cfg, int wi)
 				snprintf(sig, sizeof(sig), "%s", w->clause);
 				snprintf(msg, sizeof(msg), "%s", w->msg);
 			} else if (rc == 3) {
-				snprintf(sig, sizeof(sig), "deadlock");
+				snprintf(sig, sizeof(sig), "deadlock@%s", cfg->scenario);
 				snprintf(msg, sizeof(msg), "%.500s", err);
 			} else if (rc == 4) {
-				snprintf(sig, sizeof(sig), "livelock");
+				snprintf(sig, sizeof(sig), "livelock@%s", cfg->scenario);
 				snprintf(msg, sizeof(msg), "%.500s", err);
 			} else if (rc == 5) {
-				snprintf(sig, sizeof(sig), "hang");
+				snprintf(sig, sizeof(sig), "hang@%s", cfg->scenario);
 				snprintf(msg, sizeof(msg),
 				    "watchdog %ds expired", cfg->watchdog_s);
 			} else {
